@@ -241,7 +241,9 @@ fn all_exact(v: &[Rat]) -> Option<Vec<f64>> {
 /// The data lanes for an axis (DESIGN.md section 4). `impulses`: include the n unit impulses.
 pub fn lanes(x: &[f64], impulses: bool) -> Vec<Lane> {
     let n = x.len();
-    let xr: Vec<Rat> = x.iter().map(|&v| Rat::from_f64(v)).collect();
+    // (axes far outside the window of the exact arithmetic get no x^p lanes)
+    let in_window = x.iter().all(|&v| v == 0.0 || (v.abs() < 1e15 && v.abs() > 1e-15));
+    let xr: Vec<Rat> = if in_window { x.iter().map(|&v| Rat::from_f64(v)).collect() } else { vec![] };
     let mut v = vec![];
     if impulses {
         for i in 0..n {
@@ -259,7 +261,7 @@ pub fn lanes(x: &[f64], impulses: bool) -> Vec<Lane> {
     });
     for (p, name) in [(1u32, "x"), (2, "x^2"), (3, "x^3")] {
         // x^p is exact in f64 when x has at most 53/p significant bits
-        if x.iter().any(|&v| crate::rat::sig_bits(v) * p > 50) {
+        if !in_window || x.iter().any(|&v| crate::rat::sig_bits(v) * p > 50) {
             continue;
         }
         let r: Vec<Rat> = xr.iter().map(|x| x.pow(p)).collect();
